@@ -27,6 +27,7 @@ FIXED = [
     ('devices', 'CLS\nCOLOR 7, 1\nLOCATE 2, 3\nBEEP\nSOUND 440, 2\nPLAY "abc"\nRANDOMIZE 1\nx! = RND\nt! = TIMER\nk$ = INKEY$\nDEF SEG = 0\nPOKE 1047, 0\nDEF SEG\nWIDTH 80, 25\nVIEW PRINT 1 TO 5\nSCREEN 0\nPRINT x!; t!; k$; LEN(k$)\n',
      {'rnd': [0.5], 'timer': [10.0], 'keys': ['q']}),
     ('strings', 'a$ = "Hello World"\nPRINT LEFT$(a$, 3); RIGHT$(a$, 4); MID$(a$, 2, 3); MID$(a$, 7); UCASE$(a$); LCASE$(a$)\nPRINT INSTR(a$, "o"); INSTR(6, a$, "o"); LEN(a$); ASC(a$); CHR$(65); STR$(12); VAL("3.5"); SPACE$(2); STRING$(3, 42); STRING$(2, "z")\nPRINT LTRIM$("  x"); RTRIM$("x  "); ABS(-2.5); CINT(2.5); CLNG(3.5); INT(-2.5); 2 ^ 3\n', {}),
+    ('return-label', 'FOR i% = 1 TO 3\n  GOSUB w\nback:\nNEXT\nscan 2\nPRINT "done"\nEND\nw: PRINT "w"; i%\nIF i% = 2 THEN RETURN back\nRETURN\nSUB scan (n%)\n  FOR k% = 1 TO n%\n    GOSUB inner\nnxt:\n  NEXT\n  EXIT SUB\ninner: PRINT "in"; k%\n  IF k% = 1 THEN RETURN nxt\n  RETURN\nEND SUB\n', {}),
     ('dynarr', 'n% = 3\nDIM d&(n%, 1 TO n%)\nd&(2, 3) = 70000\nPRINT d&(2, 3); LBOUND(d&, 2); UBOUND(d&, 1)\nfill d&()\nPRINT d&(0, 1)\nSUB fill (q&())\nq&(0, 1) = 9\nEND SUB\n', {}),
 ]
 
